@@ -33,7 +33,7 @@ ASSUMPTIONS = [
     "retention model B2 (DESIGN.md Appendix B2): prune from the oldest while id < min(pinned or newest) and policy(len, id) says so",
     "pruning policies used are pure functions of (number of retained versions, version id)",
 ]
-REQUIRED = ["mon.interleaved_histories", "mon.interleaved_retention_checks", "mon.fresh_zone_snapshot", "mon.source_object_mutated_after_commit", "mon.reader_snapshot_stable", "mon.retained_set", "mon.version_ids", "mon.mutator_attack", "mon.serial_lookup"]
+REQUIRED = ["mon.big_btree_snapshot_drills", "mon.interleaved_histories", "mon.interleaved_retention_checks", "mon.fresh_zone_snapshot", "mon.source_object_mutated_after_commit", "mon.reader_snapshot_stable", "mon.retained_set", "mon.version_ids", "mon.mutator_attack", "mon.serial_lookup"]
 BUDGET = {"quick": 40.0, "thorough": 420.0}
 
 MUTATOR_NAMES = ["add", "update", "clear", "pop", "popitem", "remove", "discard", "append", "extend", "insert", "setdefault", "__setitem__", "__delitem__",
@@ -518,9 +518,62 @@ def interleaved_history(ctx, rng, inj, zname, factory):
         dns.versioned.threading = saved
 
 
+def big_btree_snapshot_drill(ctx, rng):
+    """a B-tree zone large enough for its node map to be a tree of several nodes (300-600 names): readers stay open while later
+    transactions delete and add names (leaves borrow from and merge with their siblings, some of them still shared with the
+    versions the readers hold); every held version keeps exactly the names and records it had"""
+    ctx.count("evaluations")
+    ctx.count("mon.big_btree_snapshot_drills")
+    n = rng.choice((300, 420, 600))
+    z = dns.btreezone.Zone(dns.name.from_text("big.example."))
+    names = [dns.name.from_text(f"host{i:05d}", None) for i in range(n)]
+    with z.writer() as txn:
+        txn.add(dns.name.empty, 300, dns.rdata.from_text("IN", "SOA", "ns hostmaster 1 2 3 4 5"))
+        txn.add(dns.name.empty, 300, dns.rdata.from_text("IN", "NS", "ns"))
+        for i, nm in enumerate(names):
+            txn.add(nm, 300, dns.rdata.from_text("IN", "A", f"10.{i >> 16 & 255}.{i >> 8 & 255}.{i & 255}"))
+    live = set(names)
+    held = []
+    case = {"kind": "big-btree", "names": n}
+
+    def snapshot(txn):
+        return sorted((str(x), txn.get(x, "A")[0].to_text() if txn.get(x, "A") is not None else None) for x in txn.iterate_names())
+
+    how = rng.choice(("ascending", "descending", "random"))
+    order = sorted(live) if how == "ascending" else sorted(live, reverse=True) if how == "descending" else rng.sample(sorted(live), len(live))
+    pos = 0
+    for step in range(rng.randint(20, 60)):
+        if len(held) < 3 and rng.random() < 0.3:
+            r = z.reader()
+            held.append((r, snapshot(r)))
+        with z.writer() as txn:
+            for _ in range(rng.randint(1, 4)):
+                if pos < len(order) and rng.random() < 0.85:
+                    txn.delete(order[pos])
+                    live.discard(order[pos])
+                    pos += 1
+                else:
+                    nm = dns.name.from_text(f"new{step:03d}x{rng.randrange(1000)}", None)
+                    txn.add(nm, 300, dns.rdata.from_text("IN", "A", "192.0.2.1"))
+                    live.add(nm)
+        for r, snap in held:
+            ctx.count("mon.reader_snapshot_stable")
+            now = snapshot(r)
+            if now != snap:
+                lost = [a for a in snap if a not in now][:3]
+                extra = [a for a in now if a not in snap][:3]
+                ctx.violation("open-reader-snapshot-changed:btree:big-zone", f"after commit {step} ({how} deletions): lost {lost} gained {extra}", case)
+                return
+    for r, _ in held:
+        r.rollback()
+
+
 def run(spec, ctx):
     rng = ctx.rng
     from vlib.mon import sched as S
+
+    for _ in range(2):
+        big_btree_snapshot_drill(ctx, rng)
 
     inj = S.LineInjector().watch(dns.versioned)
     inj.install()
